@@ -24,6 +24,9 @@ def gen_case(rng, kind=None, rules=False):
         if not isinstance(rx["params"].get("k", ""), str): rx["params"]["k"] = rng.choice([0.05, 0.1, 0.2, 0.5])
     for s in spec["x0"]: spec["x0"][s] = float(rng.randint(0, 8))
     safe = (not ma_only) or rng.random() < 0.3
+    # a delayed REACTANT can drive a count negative; with the plain interface a negative mass-action propensity then makes
+    # sample_discrete return -1 (out-of-bounds read): such networks are run in safe mode (see DESIGN.md, observations)
+    if any(rx.get("delay", {}).get("reactants") for rx in spec["reactions"]): safe = True
     n = rng.randint(3, 12); dt = rng.choice([0.25, 0.5, 1.0, 2.0])
     case = {"spec": spec, "kind": kind, "safe": safe, "times": [i * dt for i in range(n)], "seed": rng.randint(1, 2**31)}
     if kind == "vssa": case["volume"] = {"type": "base", "V0": rng.choice([0.25, 0.5, 1.0, 2.0, 4.0])}
